@@ -271,4 +271,7 @@ func runC16(r *core.Run) {
 	if r.Violations() < 10 {
 		c16SharedOutput(r)
 	}
+	if r.Violations() < 10 {
+		c16Binary(r)
+	}
 }
